@@ -24,6 +24,29 @@ pub use self::fr::{Fr, FrRepr};
 pub(crate) use self::isogeny::IsogenyMap;
 pub(crate) use self::osswu_map::OSSWUMap;
 
+#[cfg(feature = "verif")]
+pub use self::ec::toy as verif_toy;
+#[cfg(feature = "verif")]
+pub use self::cofactor::ClearH as VerifClearH;
+#[cfg(feature = "verif")]
+pub use self::isogeny::IsogenyMap as VerifIsogenyMap;
+#[cfg(feature = "verif")]
+pub use self::osswu_map::OSSWUMap as VerifOSSWUMap;
+#[cfg(feature = "verif")]
+pub(crate) mod verif_internal {
+    //! crate-internal accessors used only by `verif_hooks`
+    pub fn chain_z<P: ::CurveProjective>(out: &mut P, inp: &P) {
+        super::cofactor::verif_chain_z(out, inp)
+    }
+    pub fn chain_h2_eff<P: ::CurveProjective>(out: &mut P, inp: &P) {
+        super::cofactor::verif_chain_h2_eff(out, inp)
+    }
+    pub use super::isogeny::verif_eval_iso as eval_iso;
+    pub use super::osswu_map::verif_chain_p2m9div16 as chain_p2m9div16;
+    pub use super::osswu_map::verif_chain_pm3div4 as chain_pm3div4;
+    pub use super::osswu_map::verif_osswu_help as osswu_help;
+}
+
 pub mod transmute {
     pub use super::ec::g1::transmute_affine as g1_affine;
     pub use super::ec::g1::transmute_projective as g1_projective;
